@@ -13,7 +13,9 @@ META = dict(
          "transaction manager and a database driver that may fail at Begin, at every statement, at Commit and at "
          "Rollback; TLC checks its atomicity invariants and (TxGen.tla) enumerates every complete behaviour of 1-3 "
          "calls on one Conn (plus seeded simulation of 4-call histories). Each behaviour scripts a sqlmock database and the body (nil / error / panic at any "
-         "statement) and is run through Conn.Transact, Conn.TransactCtx and sqlc.CachedConn.Transact(Ctx); the "
+         "statement) and is run through Conn.Transact, Conn.TransactCtx and sqlc.CachedConn.Transact(Ctx). "
+         "TxImpl.tla models the deferred function of transactOnConn (recover branch empty / rollback / re-raise) "
+         "against the same predicates (lead only). The "
          "caller's result class and the Commit/Rollback calls that reached the database driver are compared with "
          "the specification. spec/RowMap.tla enumerates destination shapes (scalars, structs of 1-3 fields, "
          "tagged/untagged, pointer fields, embedded value/pointer structs, *T, *[]T, *[]*T) x result sets (all "
@@ -39,6 +41,7 @@ TX_INV = ["TypeOK", "NilMeansCommitted", "ElseRolledBack", "CommitIffNil", "OneE
           "FailureIsReported"]
 ROW_INV = ["OrderIndependent", "ExtraIgnored", "StrictNeverPartial", "EmptyIsNotFound",
            "FieldsComeFromTheirColumns", "NeverEmpty"]
+IMPL_INV = ["NilMeansCommitted", "ElseRolledBack", "FailureIsReported", "NoDangling", "OneEnding"]
 APIS4 = '{"Transact","TransactCtx","CachedTransact","CachedTransactCtx"}'
 
 
@@ -47,6 +50,17 @@ def mc(ctx):
     cfg = core.render_cfg(spec="Spec", constants=K, invariants=TX_INV, properties=["EndsOnlyAtEnd"], view="core")
     r = ctx.tlc("Tx", cfg, constants=K, name="Tx-mc", workers=W, coverage=True)
     ctx.check_coverage(r, ["Call", "Return", "Begin", "Stmt", "BodyEnd", "Commit", "Rollback"])
+    # mechanism-shaped model of transactOnConn's deferred function: which shapes of the recover branch keep
+    # the atomicity predicates (a lead / a sanity check of the repair, never a verdict)
+    leads = {}
+    for br in ("rollback", "reraise", "empty"):
+        K2 = dict(RecoverBranch='"%s"' % br)
+        cfg = core.render_cfg(spec="Spec", constants=K2, invariants=IMPL_INV)
+        r = ctx.tlc("TxImpl", cfg, constants=K2, name="TxImpl-" + br, workers=2, allow_violation=True)
+        leads[br] = r.violated or "holds"
+    if leads["rollback"] != "holds" or leads["reraise"] != "holds":
+        raise core.Infra("TxImpl: a repaired recover branch violates %s" % leads)
+    ctx.notes["TxImpl_recover_branch"] = leads
 
 
 def tx_gen(ctx, name, simulate=None, **K):
